@@ -22,6 +22,13 @@ CLAIMED = {
         "note": "Trusted: CPython's asyncgen firstiter/finalizer hooks and ag_frame as the ground truth of 'closed'; SimLoop (BaseEventLoop subclass, real Tasks) schedules faithfully; template generators are recognised by co_filename '<template>'. Data and filter async generators are outside the property's list and only counted.",
         "design": "DESIGN.md §4 C36, §3.4",
     },
+    "C37": {
+        "level": "exploration",
+        "technique": "deterministic simulation: virtual-time asyncio loop, seeded interleavings of 2-4 render tasks on one environment + peer cancel/exception faults, differential oracle vs isolated render",
+        "text": "Seeded search over interleavings: 2-4 real asyncio tasks render generated templates on one shared async environment under a simulated event loop whose every ready-queue choice and gate delay (0..3600 virtual seconds) comes from the seed; some runs cancel a peer at its k-th step or make a peer's k-th data event raise. Every surviving task's output must equal the same render done alone on a fresh environment of the same configuration. Sampling of schedules and programs, not enumeration.",
+        "note": "Trusted: the isolated render of the same code as reference (differential, so a bug that shows identically alone and concurrently is invisible); SimLoop schedules real Tasks faithfully. Known finding KF-C29-1 (state in cached import modules) is tolerated only for generator-tagged programs and only if a fresh environment per task removes the mismatch.",
+        "design": "DESIGN.md §4 C37, §3.4",
+    },
 }
 
 PENDING_REASON = "check not built yet in this session (planned as a simulation check, DESIGN.md §4); not claimed until it exists"
